@@ -218,7 +218,7 @@ def check_params(toks, params):
     return out
 
 
-def check_bound(toks):
+def check_bound(toks, skip=()):
     """Every variable referenced is bound earlier: by a MATCH/MERGE/CREATE/FOR pattern, AS, YIELD, a
     comprehension/quantifier/FOREACH `x IN`, or carried through WITH.  WITH narrows the scope to its items,
     UNION starts a new scope."""
@@ -301,6 +301,9 @@ def check_bound(toks):
             i += 1
             continue
         # ---- identifier (plain or back-ticked) ----
+        if p in skip:        # the identifier inside a "{identifier}" template residue is not a Cypher variable
+            i += 1
+            continue
         name = v if k == 'qident' else t
         inner = brackets[-1][0] if brackets else None
         was_types = in_types
@@ -383,10 +386,16 @@ def check_statement(text, params=None):
         probs.append(('untokenizable', 'empty statement', 0))
     bal = check_balance(toks)
     probs += bal
-    probs += check_residue(toks)
+    res = check_residue(toks)
+    probs += res
     probs += check_params(toks, params)
     if not bal:
-        probs += check_bound(toks)
+        skip = set()
+        for _, _, rp in res:
+            for j, tok in enumerate(toks):
+                if tok[2] == rp and j + 1 < len(toks):
+                    skip.add(toks[j + 1][2])
+        probs += check_bound(toks, skip)
     return toks, probs
 
 
